@@ -131,4 +131,268 @@ class C01(Property):
         return [{"check": "C01", "input": {"vector": x}} for x in vs], "all 2x2592 base vectors + %d random v3 vectors" % (len(vs) - 5184)
 
 
-PROPERTIES = {p.id: p() for p in [C01]}
+
+def v2_vector_from_model(model, prefix="o"):
+    if not model:
+        return None
+    fields = []
+    for m in S2.ORDER:
+        present = True if m in S2.BASE else bool(_mval(model, "%s.p_%s" % (prefix, m)))
+        v = _mval(model, "%s.v_%s" % (prefix, m))
+        if present and v in S2.VALUES[m]:
+            fields.append("%s:%s" % (m, v))
+        elif m in S2.BASE:
+            return None
+    return "/".join(fields)
+
+
+def v2_random(rng, n):
+    out = []
+    for _ in range(n):
+        fs = ["%s:%s" % (m, rng.choice(S2.VALUES[m])) for m in S2.BASE]
+        for m in S2.TEMPORAL + S2.ENVIRONMENTAL:
+            if rng.random() < 0.55:
+                fs.append("%s:%s" % (m, rng.choice(S2.VALUES[m])))
+        out.append("/".join(fs))
+    return out
+
+
+def v2_all_base():
+    for combo in itertools.product(*[S2.VALUES[m] for m in S2.BASE]):
+        yield "/".join("%s:%s" % (m, v) for m, v in zip(S2.BASE, combo))
+
+
+def v2_neighbourhood(vector, rng, n=729):
+    parts = vector.split("/")
+    opt = [p for p in parts if p.split(":")[0] not in S2.BASE]
+    out = []
+    for combo in itertools.product(*[S2.VALUES[m] for m in S2.BASE]):
+        out.append("/".join(["%s:%s" % (m, v) for m, v in zip(S2.BASE, combo)] + opt))
+    rng.shuffle(out)
+    return out[:n]
+
+
+V2_SCORING = [("cvss2", "CVSS2." + n) for n in (
+    "get_value", "impact_equation", "adjusted_impact_equation", "base_score_equation",
+    "temporal_score_equation", "compute_base_score", "compute_temporal_score",
+    "compute_environmental_score", "scores")]
+
+V3_ACCESSORS = [("cvss3", "CVSS3." + n) for n in (
+    "scores", "severities", "clean_vector", "rh_vector", "temporal_vector", "environmental_vector",
+    "get_value_description", "as_json", "__hash__", "__eq__")]
+V2_ACCESSORS = [("cvss2", "CVSS2." + n) for n in (
+    "scores", "severities", "clean_vector", "rh_vector", "temporal_vector", "environmental_vector",
+    "get_value_description", "as_json", "__hash__", "__eq__")]
+
+
+class VectorProperty(Property):
+    """properties whose counter-models are metric assignments of one v2/v3 object"""
+
+    native = None  # name of the native check
+    contracts = ()  # [(modname, [keys])]
+
+    wf = False  # include the functions that establish the representation invariant
+
+    def jobs(self, tier):
+        out = []
+        seen = set()
+        for modname, keys in list(self.contracts) + (WF_CONE if self.wf else []):
+            for j in contract_jobs(modname, keys):
+                k = (j[1], tuple(j[2]), tuple(sorted(j[3].items())))
+                if k not in seen:
+                    seen.add(k)
+                    out.append(j)
+        return out
+
+    def vectors_of(self, o):
+        unit = o.get("unit", "")
+        model = o.get("model") or {}
+        vs = []
+        if unit.startswith("cvss3") or "3" in unit.split(".")[0]:
+            v = v3_vector_from_model(model)
+            if v:
+                vs.append(("3", v))
+        if unit.startswith("cvss2"):
+            v = v2_vector_from_model(model)
+            if v:
+                vs.append(("2", v))
+        return vs
+
+    def job(self, ver, vector, o=None):
+        return {"check": self.native, "input": {"version": ver, "vector": vector}}
+
+    def concretize(self, o):
+        return [self.job(ver, v, o) for ver, v in self.vectors_of(o)]
+
+    def widen(self, o, tier):
+        rng = random.Random(1)
+        out = []
+        for ver, v in self.vectors_of(o):
+            out += [self.job(ver, x, o) for x in (v3_neighbourhood(v, rng) if ver == "3" else v2_neighbourhood(v, rng))]
+        unit = o.get("unit", "")
+        if unit.startswith("cvss3"):
+            out += [self.job("3", x, o) for x in v3_random(rng, 3000)]
+        if unit.startswith("cvss2"):
+            out += [self.job("2", x, o) for x in v2_random(rng, 3000)]
+        return out
+
+    def bounded(self, tier, seed):
+        rng = random.Random(seed)
+        n = 4000 if tier == "quick" else 60000
+        jobs = [self.job("3", x) for x in list(v3_all_base((1,)))[::7] + v3_random(rng, n)]
+        jobs += [self.job("2", x) for x in list(v2_all_base()) + v2_random(rng, n)]
+        return jobs, "every 7th v3.1 base vector, all 729 v2 base vectors, %d random v2 + %d random v3 vectors" % (n, n)
+
+
+class C03(VectorProperty):
+    id = "C03"
+    native = "C03"
+    trusted = ("A0", "A2", "A7", "FD")
+    technique = "contracts on cvss2.py scoring functions; VCs from the AST, finite-domain evaluation + z3; certified decimal enclosures"
+    contracts = [("contracts.cvss2", V2_SCORING), ("contracts.init", [("cvss2", "CVSS2.__init__")])]
+
+    def job(self, ver, vector, o=None):
+        return {"check": "C03", "input": {"vector": vector}}
+
+    def bounded(self, tier, seed):
+        rng = random.Random(seed)
+        vs = list(v2_all_base()) + v2_random(rng, 20000 if tier == "quick" else 200000)
+        return [self.job("2", x) for x in vs], "all 729 base vectors + %d random v2 vectors" % (len(vs) - 729)
+
+
+C01.jobs = lambda self, tier: contract_jobs("contracts.cvss3", V3_SCORING) + contract_jobs("contracts.init", [("cvss3", "CVSS3.__init__")])
+
+
+
+PARSE_V23 = [("cvss2", "CVSS2.parse_vector"), ("cvss3", "CVSS3.parse_vector")]
+INIT_V23 = [("cvss2", "CVSS2.check_mandatory"), ("cvss3", "CVSS3.check_mandatory"),
+            ("cvss2", "CVSS2.__init__"), ("cvss3", "CVSS3.__init__")]
+
+
+def acc(names, versions=("2", "3")):
+    out = []
+    for v in versions:
+        out += [("cvss" + v, "CVSS%s.%s" % (v, n)) for n in names]
+    return out
+
+
+def split_by_module(keys):
+    by = {}
+    for k in keys:
+        by.setdefault({"cvss2": "contracts.cvss2", "cvss3": "contracts.cvss3", "cvss4": "contracts.cvss4"}[k[0]], []).append(k)
+    return list(by.items())
+
+
+WF_CONE = [("contracts.parse", PARSE_V23), ("contracts.init", INIT_V23),
+           ("contracts.cvss3", V3_SCORING), ("contracts.cvss2", V2_SCORING)]
+
+
+class C04(VectorProperty):
+    id = "C04"
+    native = "C04"
+    trusted = ("A0", "A1", "A7")
+    technique = "contracts with a quantified loop invariant (ghost source index) on parse_vector; iff-contracts on check_mandatory and the constructors; z3 E-matching over abstract strings"
+    contracts = [("contracts.parse", PARSE_V23), ("contracts.init", INIT_V23)]
+
+
+class C05(VectorProperty):
+    wf = True
+    id = "C05"
+    native = "C05"
+    trusted = ("A0", "A1", "A2", "A7", "FD")
+    technique = "parse contract (map is a function of the field set) + accessor postconditions over the abstract view only"
+    contracts = [("contracts.parse", PARSE_V23)] + split_by_module(acc(
+        ["scores", "severities", "clean_vector", "rh_vector", "temporal_vector", "environmental_vector", "__eq__", "__hash__"]))
+
+
+class C07(VectorProperty):
+    id = "C07"
+    native = "C07"
+    trusted = ("A0", "A1", "FD")
+    technique = "whole-string postcondition on clean_vector (structured symbolic strings), iff-contract on __eq__, hash-of-canonical contract"
+    contracts = split_by_module(acc(["clean_vector", "__eq__", "__hash__"]))
+
+
+class C08(VectorProperty):
+    id = "C08"
+    native = "C08"
+    trusted = ("A0", "A1", "A4", "A7", "FD")
+    technique = "clean_vector/rh_vector postconditions + regular-language inclusion of the emitted language in the official vectorString pattern (z3 regex)"
+    contracts = split_by_module(acc(["clean_vector", "rh_vector"]))
+
+
+class C09(VectorProperty):
+    wf = True
+    id = "C09"
+    native = "C09"
+    trusted = ("A0", "A2", "A3", "A7", "FD")
+    technique = "postconditions of scores/severities/as_json/rh_vector against the official rating scale, all score leaves are one-decimal floats in [0,10]"
+    contracts = split_by_module(acc(["scores", "severities", "rh_vector", "as_json"]))
+
+
+class C10(VectorProperty):
+    wf = True
+    id = "C10"
+    native = "C10"
+    trusted = ("A0", "A6", "A7", "FD")
+    technique = "as_json postcondition: every fragment of the pinned official schema holds on every leaf combination of the returned document"
+    contracts = split_by_module(acc(["as_json"]))
+
+
+class C11(VectorProperty):
+    wf = True
+    id = "C11"
+    native = "C11"
+    trusted = ("A0", "A7", "FD")
+    technique = "whole-document postcondition of as_json against an independent field/value-name table; presence conditions for minimal; key order for sort"
+    contracts = split_by_module(acc(["as_json", "get_value_description"]))
+
+
+class C12(VectorProperty):
+    wf = True
+    id = "C12"
+    native = "C12"
+    trusted = ("A0", "A1", "A3", "FD")
+    technique = "rh_vector postcondition, from_rh_vector contract with float() as an assumed contract"
+    contracts = split_by_module(acc(["rh_vector"]))
+
+
+class C15(VectorProperty):
+    wf = True
+    id = "C15"
+    native = "C15"
+    trusted = ("A0", "A1", "FD")
+    technique = "whole-string postconditions on temporal_vector/environmental_vector"
+    contracts = split_by_module(acc(["temporal_vector", "environmental_vector"]))
+
+
+ALL_ACC = ["scores", "severities", "clean_vector", "rh_vector", "temporal_vector", "environmental_vector",
+           "get_value_description", "as_json", "__hash__", "__eq__"]
+
+
+class C18(VectorProperty):
+    id = "C18"
+    native = "C18"
+    trusted = ("A0", "FD")
+    technique = "frame conditions (modifies nothing, no global write, fresh result), totality (no raising path) and functional postconditions of every accessor"
+    contracts = split_by_module(acc(ALL_ACC))
+
+
+class C19(VectorProperty):
+    id = "C19"
+    native = "C19"
+    trusted = ("A0", "A2", "FD")
+    technique = "frame/read-set conditions of every function under contract (no module-global or class-attribute write, no stdout, no hash-order iteration), context-generic decimal enclosures"
+    contracts = ([("contracts.parse", PARSE_V23), ("contracts.init", INIT_V23)]
+                 + split_by_module(acc(ALL_ACC) + V3_SCORING + V2_SCORING))
+
+    def job(self, ver, vector, o=None):
+        hist = [{"version": "3", "vector": "CVSS:3.0/AV:N/AC:L/PR:L/UI:R/S:C/C:H/I:H/A:N/IR:L"},
+                {"version": "3", "vector": "CVSS:3.1/AV:N/AC:L/PR:L/UI:R/S:C/C:H/I:H/A:N/IR:L"},
+                {"version": "2", "vector": "AV:N/AC:L/Au:N/C:P/I:P/A:P/CR:H/IR:H/AR:H"},
+                {"version": "2", "vector": "AV:N/AC:L/Au:N/C:P/I:P/A:P/CR:L/IR:L/AR:L"},
+                {"version": "3", "vector": "CVSS:3.1/AV:N"}, {"version": "2", "vector": "garbage"}]
+        return {"check": "C19", "input": {"version": ver, "vector": vector, "history": hist}}
+
+
+PROPERTIES = {p.id: p() for p in [C01, C03, C04, C05, C07, C08, C09, C10, C11, C12, C15, C18, C19]}
